@@ -46,6 +46,31 @@ static void run_static(Json& js, vh::Rng& rng, long budget) {
             qs.push_back(mdb(g));
         }
         js.begin("Static").str("proc", lim ? "lim" : "comp").num("T", T).num("R", R).num("W", W).arr("vs", vs).arr("qs", qs).end();
+        // the same levels through ONE object, one sample per level in shuffled order (alternating sign): with zero attack and
+        // release every sample's gain is the static characteristic of that sample's own level, whatever came before
+        {
+            std::vector<long> ws = vs;
+            for (size_t i = ws.size(); i > 1; --i) {
+                std::swap(ws[i - 1], ws[rng.range(0, (long)i - 1)]);
+            }
+            arr_real x((int)ws.size());
+            for (int i = 0; i < x.size(); ++i) {
+                x[i] = std::pow(10.0, (T + ws[i] / 100.0) / 20.0) * ((i % 2) ? -1 : 1);
+            }
+            arr_real g;
+            if (lim) {
+                Limiter p(48000, (double)T, (double)W, 0.0, 0.0);
+                g = p.process(x).gain;
+            } else {
+                Compressor p(48000, (double)T, R, (double)W, 0.0, 0.0);
+                g = p.process(x).gain;
+            }
+            std::vector<long> q2;
+            for (int i = 0; i < g.size(); ++i) {
+                q2.push_back(mdb(g[i]));
+            }
+            js.begin("Static").str("proc", lim ? "lim" : "comp").num("T", T).num("R", R).num("W", W).arr("vs", ws).arr("qs", q2).end();
+        }
     }
 }
 
